@@ -3,16 +3,124 @@ package c25
 
 import (
 	"net"
+	"sync"
+	"time"
 
 	"verifharness/sym"
 
 	"github.com/blinklabs-io/gouroboros/connection"
 	"github.com/blinklabs-io/gouroboros/protocol"
 	"github.com/blinklabs-io/gouroboros/protocol/localtxmonitor"
+	"github.com/blinklabs-io/gouroboros/protocol/peersharing"
 )
 
 var Registry = map[string]func(){
-	"TxMonitor": TxMonitor,
+	"TxMonitor":   TxMonitor,
+	"PeerSharing": PeerSharing,
+}
+
+func connID() connection.ConnectionId {
+	return connection.ConnectionId{LocalAddr: net.Addr(addr{}), RemoteAddr: net.Addr(addr{})}
+}
+
+// peerRound: two goroutines call GetPeers(1) and GetPeers(2) on one client while a third runs
+// the message handler; the server answers in wire order with as many peers as were asked
+// for. Returns how many callers got an answer of the wrong size.
+func peerRound(run func(env func() bool, bodies ...func()) bool, order int) (wrong int, returned int) {
+	c := peersharing.VerifNewClient(connID())
+	replies := make(chan protocol.Message, 4)
+	got := [2]int{-1, -1}
+	call := func(i int) func() {
+		return func() {
+			p, err := c.GetPeers(uint8(i + 1))
+			if err == nil {
+				got[i] = len(p)
+			}
+		}
+	}
+	handler := func() {
+		for m := range replies {
+			_ = peersharing.VerifClientHandle(c, m)
+		}
+	}
+	answered := 0
+	env := func() bool {
+		m := protocol.VerifTakeSent(c.Protocol)
+		if m == nil {
+			if answered == 2 {
+				close(replies)
+				answered++
+				return true
+			}
+			return false
+		}
+		answered++
+		replies <- peersharing.NewMsgSharePeers(make([]peersharing.PeerAddress, int(m.(*peersharing.MsgShareRequest).Amount)))
+		return true
+	}
+	if order == 0 {
+		run(env, call(0), call(1), handler)
+	} else {
+		run(env, call(1), call(0), handler)
+	}
+	for i := range got {
+		if got[i] >= 0 {
+			returned++
+			if got[i] != i+1 {
+				wrong++
+			}
+		}
+	}
+	return
+}
+
+// PeerSharing: concurrent GetPeers calls get their own answers. Under the executor the two
+// callers and the handler are scheduled cooperatively, a caller may lose the processor right
+// after its request is queued (preempt_sends), and a value on the shared result channel goes
+// to the longest-waiting receiver, as in Go. Natively the race cannot be forced, so the
+// scenario is repeated 4000 times with real goroutines.
+func PeerSharing() {
+	order := sym.Param("order")
+	rounds := 1
+	if !sym.Symbolic() {
+		rounds = 4000
+	}
+	wrong, returned := 0, 0
+	for r := 0; r < rounds; r++ {
+		w, n := peerRound(runner(), order)
+		wrong += w
+		returned += n
+	}
+	sym.Reach("ran")
+	sym.Assert(returned == 2*rounds, "every call returns")
+	sym.Assert(wrong == 0, "GetPeers returns the answer to its own request (as many peers as it asked for)")
+}
+
+// runner: the executor's cooperative scheduler, or natively plain goroutines with the
+// environment polled without the quiet-period heuristic (the rounds must be fast)
+func runner() func(env func() bool, bodies ...func()) bool {
+	if sym.Symbolic() {
+		return sym.RunGoroutines
+	}
+	return func(env func() bool, bodies ...func()) bool {
+		var wg sync.WaitGroup
+		for _, b := range bodies {
+			wg.Add(1)
+			go func(f func()) { defer wg.Done(); f() }(b)
+		}
+		done := make(chan struct{})
+		go func() { wg.Wait(); close(done) }()
+		for {
+			select {
+			case <-done:
+				return false
+			default:
+				if !env() {
+					time.Sleep(time.Microsecond)
+				}
+			}
+		}
+	}
 }
 
 type addr struct{}
